@@ -446,6 +446,7 @@ func propC01() *PropSpec {
 			js = append(js, jobsN("js", "VerifJSParens", []int{0}, "x=((a OP1 b) OP2 c), x=(a OP1 (b OP2 c)) and conditional forms for all pairs of 18 binary operators: same expression tree (up to associativity of && || ??)")...)
 			js = append(js, jobsN("js", "VerifJSGroupPostfix", []int{0}, "x=(INNER)POST for 33 inner forms x 10 postfix forms: parentheses dropped only where the expression tree stays the same")...)
 			js = append(js, jobsN("js", "VerifJSBoolCoerce", []int{0}, "!!(E), E?true:false, E?Y:false ... with E = A op B over comparisons, negations and plain values: coercion only dropped for boolean E")...)
+			js = append(js, jobsN("js", "VerifJSBuiltins", []int{0}, "22 programs x 2 targets: isNaN / Math.trunc / Math.abs calls on variables and locally bound `undefined`, run by the reference evaluator on symbolic argument values (undefined, null, booleans, NaN-free small numbers, strings)")...)
 			js = append(js, jobsN("js", "VerifJSDanglingElse", []int{0}, "9 nested if / else-if shapes x 3 body sets (blocks with lexical declarations): every else stays with its if")...)
 			return js
 		},
